@@ -1,0 +1,43 @@
+//go:build verif
+
+// Copyright JAMF Software, LLC
+
+package fsm
+
+import (
+	"github.com/cockroachdb/pebble"
+	"github.com/jamf/regatta/regattapb"
+)
+
+// Re-exports of unexported identifiers for the verification harness (build tag verif). No logic.
+
+const (
+	VerifMaxRangeSize = maxRangeSize
+	VerifMaxBatchSize = maxBatchSize
+)
+
+func VerifSysLocalIndex() []byte  { return append([]byte(nil), sysLocalIndex...) }
+func VerifSysLeaderIndex() []byte { return append([]byte(nil), sysLeaderIndex...) }
+func VerifMaxUserKey() []byte     { return append([]byte(nil), maxUserKey...) }
+func VerifWildcard() []byte       { return append([]byte(nil), wildcard...) }
+
+func VerifIterOptionsForBounds(low, high []byte) (*pebble.IterOptions, error) {
+	return iterOptionsForBounds(low, high)
+}
+
+func VerifIncrementRightmostByte(in []byte) []byte { return incrementRightmostByte(in) }
+
+func VerifEncodeUserKey(k []byte) ([]byte, error) {
+	buf := bufferPool.Get()
+	defer bufferPool.Put(buf)
+	if err := encodeUserKey(buf, k); err != nil {
+		return nil, err
+	}
+	return append([]byte(nil), buf.Bytes()...), nil
+}
+
+func (p *FSM) VerifDB() *pebble.DB { return p.pebble.Load() }
+
+func VerifTxnCompareSingle(cmp *regattapb.Compare, value []byte) bool {
+	return txnCompareSingle(cmp, value)
+}
